@@ -224,4 +224,339 @@ theorem cmrs_prunePlan (jc : String → Option Nat) (S : List (Nat × Bool)) (id
   have := foldlM_cmrStep_pruneList jc S ids cm p.toList #[] h (by simpa [wf] using hwf)
   simpa [prunePlan] using this
 
+/-! ### typing constraints: pruning and masking only drop equations -/
+
+open Inf (Eqn)
+
+theorem constraintsMGo_all (jt : JetTypes) : ∀ (nodes : List Node) (i f : Nat) (acc : List Eqn),
+    constraintsMGo jt (fun _ => true) i nodes f acc = constraints.go jt i nodes f acc := by
+  intro nodes
+  induction nodes with
+  | nil => intro i f acc; simp [constraintsMGo, constraints.go]
+  | cons nd rest ih =>
+    intro i f acc
+    simp only [constraintsMGo, constraints.go]
+    cases nodeEqns jt i nd f with
+    | none => rfl
+    | some r => obtain ⟨es, f'⟩ := r; simp [ih]
+
+/-- with every node selected, `constraintsM` is `Prog.constraints` (the constraints `Prog.infer`,
+the model of C04, solves) -/
+theorem constraintsM_all (jt : JetTypes) (p : Plan) (program : Bool) :
+    constraintsM jt p (fun _ => true) program = constraints jt p program := by
+  unfold constraintsM constraints
+  rw [constraintsMGo_all]
+  cases constraints.go jt 0 p.toList (2 * p.size) [] <;> rfl
+
+/-- `nd'` contributes a subset of the equations of `nd` and uses up the same fresh variables -/
+def NodeSub (jt : JetTypes) (nd' nd : Node) : Prop :=
+  ∀ i f es g, nodeEqns jt i nd f = some (es, g) →
+    ∃ es', nodeEqns jt i nd' f = some (es', g) ∧ ∀ e ∈ es', e ∈ es
+
+theorem NodeSub.refl (jt : JetTypes) (nd : Node) : NodeSub jt nd nd :=
+  fun _ _ es _ h => ⟨es, h, fun _ he => he⟩
+
+inductive ListSub (jt : JetTypes) : List Node → List Node → Prop
+  | nil : ListSub jt [] []
+  | cons {nd' nd ns' ns} : NodeSub jt nd' nd → ListSub jt ns' ns → ListSub jt (nd' :: ns') (nd :: ns)
+
+theorem ListSub.refl (jt : JetTypes) : ∀ ns, ListSub jt ns ns
+  | [] => .nil
+  | nd :: ns => .cons (NodeSub.refl jt nd) (ListSub.refl jt ns)
+
+theorem ListSub.length {jt : JetTypes} {ns' ns : List Node} (h : ListSub jt ns' ns) : ns'.length = ns.length := by
+  induction h with
+  | nil => rfl
+  | cons _ _ ih => simp [ih]
+
+/-- the assertion keeps three of the five equations of the case node, with the same three fresh
+variables -/
+theorem nodeSub_pruneNode (jt : JetTypes) (S : List (Nat × Bool)) (id : Nat) (cm : Nat → Nat) (nd : Node) :
+    NodeSub jt (pruneNode S id cm nd) nd := by
+  cases nd with
+  | case a b =>
+    simp only [pruneNode]
+    cases decide ((id, false) ∈ S) <;> cases decide ((id, true) ∈ S)
+    · exact NodeSub.refl jt _
+    · intro i f es g h
+      simp only [nodeEqns, Option.some.injEq, Prod.mk.injEq] at h
+      obtain ⟨rfl, rfl⟩ := h
+      exact ⟨_, rfl, by intro e he; simp only [List.mem_cons, List.not_mem_nil, or_false] at he ⊢; rcases he with rfl | rfl | rfl <;> simp⟩
+    · intro i f es g h
+      simp only [nodeEqns, Option.some.injEq, Prod.mk.injEq] at h
+      obtain ⟨rfl, rfl⟩ := h
+      exact ⟨_, rfl, by intro e he; simp only [List.mem_cons, List.not_mem_nil, or_false] at he ⊢; rcases he with rfl | rfl | rfl <;> simp⟩
+    · exact NodeSub.refl jt _
+  | _ => exact NodeSub.refl jt _
+
+theorem listSub_pruneList (jt : JetTypes) (S : List (Nat × Bool)) (ids : Nat → Nat) (cm : Nat → Nat) :
+    ∀ (ns : List Node) (i : Nat), ListSub jt (pruneList S ids cm i ns) ns
+  | [], _ => .nil
+  | nd :: ns, i => .cons (nodeSub_pruneNode jt S (ids i) cm nd) (listSub_pruneList jt S ids cm ns (i + 1))
+
+theorem constraintsMGo_sub (jt : JetTypes) {m' m : Nat → Bool} (hm : ∀ i, m' i = true → m i = true)
+    {ns' ns : List Node} (hs : ListSub jt ns' ns) :
+    ∀ (i f : Nat) (acc' acc E : List Eqn), (∀ e ∈ acc', e ∈ acc) →
+      constraintsMGo jt m i ns f acc = some E →
+      ∃ E', constraintsMGo jt m' i ns' f acc' = some E' ∧ ∀ e ∈ E', e ∈ E := by
+  induction hs with
+  | nil =>
+    intro i f acc' acc E hacc h
+    simp only [constraintsMGo, Option.some.injEq] at h
+    subst h
+    exact ⟨acc', rfl, hacc⟩
+  | @cons nd' nd ns' ns hn _ ih =>
+    intro i f acc' acc E hacc h
+    simp only [constraintsMGo] at h
+    cases hq : nodeEqns jt i nd f with
+    | none => simp [hq] at h
+    | some r =>
+      obtain ⟨es, g⟩ := r
+      simp only [hq] at h
+      obtain ⟨es', hq', hsub⟩ := hn i f es g hq
+      simp only [constraintsMGo, hq']
+      refine ih (i + 1) g _ _ E ?_ h
+      intro e he
+      cases hm' : m' i with
+      | true =>
+        simp only [hm', if_true, List.mem_append] at he
+        simp only [hm i hm', if_true, List.mem_append]
+        rcases he with he | he
+        · exact .inl (hacc e he)
+        · exact .inr (hsub e he)
+      | false =>
+        simp only [hm', Bool.false_eq_true, if_false] at he
+        cases m i with
+        | true => simp only [if_true, List.mem_append]; exact .inl (hacc e he)
+        | false => simpa using hacc e he
+
+/-- dropping nodes (a smaller mask) and rewriting cases into assertions only removes equations -/
+theorem constraintsM_sub (jt : JetTypes) {p' p : Plan} {m' m : Nat → Bool}
+    (hm : ∀ i, m' i = true → m i = true) (hs : ListSub jt p'.toList p.toList) (program : Bool)
+    {E : List Eqn} (h : constraintsM jt p m program = some E) :
+    ∃ E', constraintsM jt p' m' program = some E' ∧ ∀ e ∈ E', e ∈ E := by
+  have hsz : p'.size = p.size := by simpa using hs.length
+  unfold constraintsM at h ⊢
+  cases hg : constraintsMGo jt m 0 p.toList (2 * p.size) [] with
+  | none => simp [hg] at h
+  | some es =>
+    simp only [hg, Option.some.injEq] at h
+    obtain ⟨es', hg', hsub⟩ := constraintsMGo_sub jt hm hs 0 (2 * p.size) [] [] es (fun _ he => he) hg
+    rw [hsz, hg']
+    refine ⟨_, rfl, ?_⟩
+    subst h
+    cases program with
+    | false => simpa using hsub
+    | true =>
+      intro e he
+      simp only [if_true, List.mem_append] at he ⊢
+      rcases he with he | he
+      · exact .inl (hsub e he)
+      · exact .inr he
+
+/-! ### the inferred types can only shrink -/
+
+theorem tyOfInf_le : ∀ {a b : Inf.Ty}, Inf.Le a b → Le (tyOfInf a) (tyOfInf b)
+  | _, _, .one _ => .one _
+  | _, _, .sum ha hb => .sum (tyOfInf_le ha) (tyOfInf_le hb)
+  | _, _, .prod ha hb => .prod (tyOfInf_le ha) (tyOfInf_le hb)
+
+theorem arrowsOf_getD (n : Nat) (ρ : Nat → Inf.Ty) {i : Nat} (h : i < n) :
+    (arrowsOf n ρ).getD i (.one, .one) = (tyOfInf (ρ (2 * i)), tyOfInf (ρ (2 * i + 1))) := by
+  simp [arrowsOf, Array.getD, h]
+
+theorem inferM_ok {jt : JetTypes} {p : Plan} {m : Nat → Bool} {prog : Bool} {arr : Array (Ty × Ty)}
+    (h : inferM jt p m prog = .ok arr) :
+    ∃ es S, constraintsM jt p m prog = some es ∧ Inf.unify unifyFuel es [] = .ok S ∧
+      arr = arrowsOf p.size (Inf.closeUnit S) := by
+  unfold inferM at h
+  cases hc : constraintsM jt p m prog with
+  | none => simp [hc] at h
+  | some es =>
+    simp only [hc] at h
+    cases hu : Inf.unify unifyFuel es [] with
+    | ok S => simp only [hu, InferRes.ok.injEq] at h; exact ⟨es, S, rfl, hu, h.symm⟩
+    | clash => simp [hu] at h
+    | occurs => simp [hu] at h
+    | fuel => simp [hu] at h
+
+/-- **types shrink**: every arrow inferred for the smaller system is below (`≤`: unit below
+everything, componentwise) the arrow of the same node in the larger one -/
+theorem inferM_mono (jt : JetTypes) {p' p : Plan} {m' m : Nat → Bool}
+    (hm : ∀ i, m' i = true → m i = true) (hs : ListSub jt p'.toList p.toList) (prog : Bool)
+    {arr arr' : Array (Ty × Ty)} (h : inferM jt p m prog = .ok arr) (h' : inferM jt p' m' prog = .ok arr') :
+    ∀ i, i < p.size →
+      Le (arr'.getD i (.one, .one)).1 (arr.getD i (.one, .one)).1 ∧
+      Le (arr'.getD i (.one, .one)).2 (arr.getD i (.one, .one)).2 := by
+  obtain ⟨es, S, hc, hu, rfl⟩ := inferM_ok h
+  obtain ⟨es', S', hc', hu', rfl⟩ := inferM_ok h'
+  obtain ⟨E', hE', hsub⟩ := constraintsM_sub jt hm hs prog hc
+  rw [hc'] at hE'
+  cases hE'
+  have hsz : p'.size = p.size := by simpa using hs.length
+  have mono := Inf.least_mono hsub hu hu'
+  intro i hi
+  rw [arrowsOf_getD _ _ hi, arrowsOf_getD _ _ (hsz ▸ hi)]
+  exact ⟨tyOfInf_le (mono _), tyOfInf_le (mono _)⟩
+
+/-- **re-inference cannot fail**: if the larger system has a solution, the unifier does not answer
+`clash`/`occurs` on the smaller one (the `expect("pruned types should check out …")` of the code) -/
+theorem inferM_sub_succeeds (jt : JetTypes) {p' p : Plan} {m' m : Nat → Bool}
+    (hm : ∀ i, m' i = true → m i = true) (hs : ListSub jt p'.toList p.toList) (prog : Bool)
+    {arr : Array (Ty × Ty)} (h : inferM jt p m prog = .ok arr) :
+    (∃ arr', inferM jt p' m' prog = .ok arr') ∨ inferM jt p' m' prog = .fuel := by
+  obtain ⟨es, S, hc, hu, rfl⟩ := inferM_ok h
+  obtain ⟨E', hE', hsub⟩ := constraintsM_sub jt hm hs prog hc
+  have hsol : Inf.Sol (Inf.closeUnit S) E' := fun e he => (Inf.unify_least _ _ _ hu).1 e (hsub e he)
+  unfold inferM
+  rw [hE']
+  cases hu' : Inf.unify unifyFuel E' [] with
+  | ok S' => exact .inl ⟨arrowsOf p'.size (Inf.closeUnit S'), by simp only [hu']⟩
+  | clash => exact (Inf.quotient_accepts hsol (.inl hu')).elim
+  | occurs => exact (Inf.quotient_accepts hsol (.inr hu')).elim
+  | fuel => exact .inr (by simp only [hu'])
+
+/-! ### `Value::prune` -/
+
+/-- pruning a well-typed value to a type below its own always succeeds (no panic in `Finalizer`) -/
+theorem pruneV_of_le {v : Val} {t : Ty} (hv : HasTy v t) : ∀ {t' : Ty}, Le t' t → ∃ w, pruneV v t' = some w := by
+  induction hv with
+  | unit => intro t' h; cases h; exact ⟨.unit, rfl⟩
+  | inl _ ih =>
+    intro t' h
+    cases h with
+    | one => exact ⟨.unit, rfl⟩
+    | sum ha _ => obtain ⟨w, hw⟩ := ih ha; exact ⟨.inl w, by simp [pruneV, hw]⟩
+  | inr _ ih =>
+    intro t' h
+    cases h with
+    | one => exact ⟨.unit, rfl⟩
+    | sum _ hb => obtain ⟨w, hw⟩ := ih hb; exact ⟨.inr w, by simp [pruneV, hw]⟩
+  | pair _ _ ih1 ih2 =>
+    intro t' h
+    cases h with
+    | one => exact ⟨.unit, rfl⟩
+    | prod ha hb =>
+      obtain ⟨x', hx⟩ := ih1 ha
+      obtain ⟨y', hy⟩ := ih2 hb
+      exact ⟨.pair x' y', by simp [pruneV, hx, hy]⟩
+
+/-- whenever it succeeds, the partial `pruneV` is the total `pr` of `Prune.lean` (the function
+`eval_shrink` is stated with) -/
+theorem pruneV_eq_pr : ∀ (v : Val) (t : Ty) (w : Val), pruneV v t = some w → w = pr t v := by
+  intro v
+  induction v with
+  | unit =>
+    intro t w h
+    cases t <;> simp [pruneV] at h
+    subst h; rfl
+  | inl v ih =>
+    intro t w h
+    cases t with
+    | one => simp [pruneV] at h; subst h; rfl
+    | sum a b =>
+      simp only [pruneV, Option.map_eq_some_iff] at h
+      obtain ⟨w', hw', rfl⟩ := h
+      simp [pr, ih a w' hw']
+    | prod a b => simp [pruneV] at h
+  | inr v ih =>
+    intro t w h
+    cases t with
+    | one => simp [pruneV] at h; subst h; rfl
+    | sum a b =>
+      simp only [pruneV, Option.map_eq_some_iff] at h
+      obtain ⟨w', hw', rfl⟩ := h
+      simp [pr, ih b w' hw']
+    | prod a b => simp [pruneV] at h
+  | pair x y ihx ihy =>
+    intro t w h
+    cases t with
+    | one => simp [pruneV] at h; subst h; rfl
+    | sum a b => simp [pruneV] at h
+    | prod a b =>
+      simp only [pruneV] at h
+      cases hx : pruneV x a with
+      | none => simp [hx] at h
+      | some x' =>
+        cases hy : pruneV y b with
+        | none => simp [hx, hy] at h
+        | some y' =>
+          simp [hx, hy] at h; subst h
+          simp [pr, ihx a x' hx, ihy b y' hy]
+
+/-- the result of a successful prune has exactly the target type -/
+theorem pruneV_hasTy : ∀ (v : Val) (t : Ty) (w : Val), pruneV v t = some w → HasTy w t := by
+  intro v
+  induction v with
+  | unit =>
+    intro t w h
+    cases t <;> simp [pruneV] at h
+    subst h; exact .unit
+  | inl v ih =>
+    intro t w h
+    cases t with
+    | one => simp [pruneV] at h; subst h; exact .unit
+    | sum a b =>
+      simp only [pruneV, Option.map_eq_some_iff] at h
+      obtain ⟨w', hw', rfl⟩ := h
+      exact .inl (ih a w' hw')
+    | prod a b => simp [pruneV] at h
+  | inr v ih =>
+    intro t w h
+    cases t with
+    | one => simp [pruneV] at h; subst h; exact .unit
+    | sum a b =>
+      simp only [pruneV, Option.map_eq_some_iff] at h
+      obtain ⟨w', hw', rfl⟩ := h
+      exact .inr (ih b w' hw')
+    | prod a b => simp [pruneV] at h
+  | pair x y ihx ihy =>
+    intro t w h
+    cases t with
+    | one => simp [pruneV] at h; subst h; exact .unit
+    | sum a b => simp [pruneV] at h
+    | prod a b =>
+      simp only [pruneV] at h
+      cases hx : pruneV x a with
+      | none => simp [hx] at h
+      | some x' =>
+        cases hy : pruneV y b with
+        | none => simp [hx, hy] at h
+        | some y' =>
+          simp [hx, hy] at h; subst h
+          exact .pair (ihx a x' hx) (ihy b y' hy)
+
+/-! ### the table is idempotent -/
+
+theorem pruneNode_idem (S : List (Nat × Bool)) (id : Nat) (cm : Nat → Nat) (nd : Node) :
+    pruneNode S id cm (pruneNode S id cm nd) = pruneNode S id cm nd := by
+  cases nd with
+  | case a b =>
+    simp only [pruneNode]
+    cases h1 : decide ((id, false) ∈ S) <;> cases h2 : decide ((id, true) ∈ S) <;> simp [pruneNode, h1, h2]
+  | _ => rfl
+
+theorem pruneList_idem (S : List (Nat × Bool)) (ids : Nat → Nat) (cm : Nat → Nat) :
+    ∀ (ns : List Node) (i : Nat), pruneList S ids cm i (pruneList S ids cm i ns) = pruneList S ids cm i ns
+  | [], _ => rfl
+  | nd :: ns, i => by simp [pruneList, pruneNode_idem, pruneList_idem S ids cm ns (i + 1)]
+
+/-- for a fixed tracker content, identities and root table the rewriting is idempotent -/
+theorem prunePlan_idem (S : List (Nat × Bool)) (ids : Nat → Nat) (cm : Nat → Nat) (p : Plan) :
+    prunePlan S ids cm (prunePlan S ids cm p) = prunePlan S ids cm p := by
+  simp [prunePlan, pruneList_idem]
+
+/-- a plan in which no case node has exactly one side recorded is left alone -/
+theorem pruneNode_fix (S : List (Nat × Bool)) (id : Nat) (cm : Nat → Nat) (nd : Node)
+    (h : ∀ a b, nd = .case a b → ((id, false) ∈ S ↔ (id, true) ∈ S)) : pruneNode S id cm nd = nd := by
+  cases nd with
+  | case a b =>
+    have := h a b rfl
+    simp only [pruneNode]
+    by_cases h1 : (id, false) ∈ S
+    · simp [h1, this.1 h1]
+    · have h2 : (id, true) ∉ S := fun h2 => h1 (this.2 h2)
+      simp [h1, h2]
+  | _ => rfl
+
 end Prog
